@@ -12,7 +12,8 @@ META = {
 }
 
 PARENT_NAME = "a/a/drv"      # name of the including template in the join-callback stream
-FORMS = ["get", "include", "import", "from", "extends", "inclist", "joincb"]
+FORMS = ["get", "include", "import", "from", "extends", "inclist", "joincb", "fn", "macro", "nested"]
+LC_FORMS = FORMS + ["ar", "arr"]
 
 _esc = re.compile(rb"%([0-9a-f]{2})")
 _tesc = re.compile(r"~([0-9a-f]{2})")
@@ -111,6 +112,19 @@ class Ctx:
         self.tree = None
         self.bases = {}
         self.notes = 0
+        self.lcbase = {}        # (scenario, spelling) -> configured base string
+        self.lc = {}            # (scenario, spelling) -> list of records in order
+        self.lct = {}           # (scenario, spelling, phase) -> {name: result}
+        self.lcclear = set()    # (scenario, spelling, phase): clear_templates happened before that phase
+        self.got = {}           # (variant, name) -> result of the `get` form in the ld stream
+        self.tl = {}            # variant -> {name: result} as listed by Environment::templates
+
+
+def broken(r, key, msg, cap=3):
+    """record a broken-tie message, at most `cap` per kind (the count goes to the histogram)"""
+    r.hist["broken-tie"][key] += 1
+    if r.hist["broken-tie"][key] <= cap:
+        r.broken.append(msg)
 
 
 def nontrivial_name(name):
@@ -128,6 +142,8 @@ def check_lines(r, ctx, lines, model):
                 ctx.tree = unpct(f[1])
             elif f[0] == "#base":
                 ctx.bases[f[1]] = unpct(f[2])
+            elif f[0] == "#lcbase":
+                ctx.lcbase[(f[1], f[2])] = f[3]
             continue
         case, impl = line.split("\t", 1)
         f = case.split(" ")
@@ -150,7 +166,7 @@ def check_lines(r, ctx, lines, model):
             # third witness (Python transcription) — keeps the Lean transcription honest
             pj = py_safe_join(base, name)
             if mf is not None and (None if mf[0] == "none" else unpct(mf[1])) != pj:
-                r.broken.append(f"Lean safeJoin and the Python transcription disagree on {case}: {m} vs {pj!r}")
+                broken(r, "lean-vs-python-safe_join", f"Lean safeJoin (built from the rules extracted from the source) and the Python transcription of the pinned rules disagree on {case}: {m} vs {pj!r}")
             # oracle on the hook's result: lexically beneath the base
             if impl.startswith("panic"):
                 r.oracle_failure(case, "safe_join panicked: " + impl, "safe_join:panic")
@@ -165,11 +181,11 @@ def check_lines(r, ctx, lines, model):
                     r.oracle_failure(case, f"safe_join returned {hook_p!r}, lexically {lex_str(ab, st)!r}, not beneath base {lex_str(bab, bst)!r}",
                                      "safe_join:lexical-escape")
                 if not normpath_agrees(hook_p):
-                    r.broken.append(f"python lex() and os.path.normpath disagree on {hook_p!r}")
+                    broken(r, "lex-vs-normpath", f"python lex() and os.path.normpath disagree on {hook_p!r}")
                 if mf is not None and mf[0] == "some":
                     mn = [unpct(x) for x in mf[4].split(",")] if len(mf) > 4 and mf[4] else []
                     if mn != lex(unpct(mf[1]))[1]:
-                        r.broken.append(f"Lean normalize disagrees with the Python witness on {mf[1]}: {mn}")
+                        broken(r, "lean-vs-python-normalize", f"Lean normalize disagrees with the Python witness on {mf[1]}: {mn}")
             last_sj = (base, name, hook_p, None if (mf is None or mf[0] == "none") else unpct(mf[1]), mf is not None)
             if r.evaluations % 60000 == 1:
                 r.sample({"case": case, "safe_join": impl, "model": m})
@@ -182,9 +198,9 @@ def check_lines(r, ctx, lines, model):
                 p = unpct(f[1])
                 mn = [unpct(x) for x in m.split(" ")[2].split(",")] if m.split(" ")[2] else []
                 if mn != lex(p)[1]:
-                    r.broken.append(f"Lean normalize disagrees with the Python witness on {f[1]}: {mn}")
+                    broken(r, "lean-vs-python-normalize", f"Lean normalize disagrees with the Python witness on {f[1]}: {mn}")
                 if not normpath_agrees(p):
-                    r.broken.append(f"python lex() and os.path.normpath disagree on {p!r}")
+                    broken(r, "lex-vs-normpath", f"python lex() and os.path.normpath disagree on {p!r}")
         elif stream == "ld":
             variant, name = f[1], unpct(f[2])
             base = ctx.bases[variant]
@@ -194,17 +210,21 @@ def check_lines(r, ctx, lines, model):
             r.count(case, nontrivial_name(name))
             r.hist["variant"][variant] += 1
             if last_sj is None or last_sj[0] != base or last_sj[1] != name:
-                r.broken.append(f"harness stream out of step at {case}")
+                broken(r, "out-of-step", f"harness stream out of step at {case}")
                 continue
             _, _, hook_p, model_p, have_model = last_sj
             parts = impl.split(";")
             via = parts[0][2:]
             via = None if via == "-" else untilde(via)
+            disk = parts[1][2:]
+            parts = [parts[0]] + parts[2:]
             expect = fs_expect(model_p, cwd) if have_model else None
             expect_cb = fs_expect(py_safe_join(base, py_join_cb(name, PARENT_NAME)), cwd)
             for part in parts[1:]:
                 form, res = part.split("=", 1)
                 cls = res.split(":")[0]
+                if form == "get" and cls == "f":
+                    ctx.got[(variant, f[2])] = res
                 r.hist["loader:" + form][("found" if cls == "f" else res) if cls != "panic" else "panic"] += 1
                 found = None
                 if cls == "panic":
@@ -221,19 +241,169 @@ def check_lines(r, ctx, lines, model):
                             r.oracle_failure(case, f"{form}: loader returned content that is not a file beneath the base: {mk!r}", f"{form}:outside-base")
                     found = untilde(marks[0].split(":", 1)[1]) if len(marks) == 1 and ":" in marks[0] else "?"
                 elif cls not in ("nf", "e"):
-                    r.broken.append(f"unexpected harness result {res!r} on {case}")
+                    broken(r, "unexpected-result", f"unexpected harness result {res!r} on {case}")
                 # correspondence: what the loader returned is what (model of safe_join + the disk) designates
                 want = expect_cb if form == "joincb" else expect
                 if (have_model or form == "joincb") and found != want:
                     r.model_disagreement(case + " [" + form + "]", f"loader returned {found!r}", f"model + disk designate {want!r}")
+                # the io-error mapping: NotFound is "missing", every other failure "unreadable"
+                if form != "joincb" and have_model and found is None and want is None and cls in ("nf", "e"):
+                    want_cls = "e" if (model_p is not None and disk == "!") else "nf"
+                    if cls != want_cls:
+                        r.model_disagreement(case + " [" + form + "]", f"loader answered {res!r}", f"model: disk says {disk!r} at the joined path, so {want_cls!r}")
                 if form != "joincb" and found is not None and found != via:
                     r.model_disagreement(case + " [" + form + "]", f"loader returned {found!r}", f"hook safe_join designates {via!r}")
             if expect is not None and len(r.samples) < 10:
                 r.sample({"case": case, "loader": impl[:300]})
+        elif stream == "lc":
+            r.count(case, True)
+            rec = dict(x.split("=", 1) for x in impl.split(";"))
+            rec["case"], rec["phase"], rec["name"], rec["scn"], rec["sp"] = case, int(f[2]), f[4], f[1], f[3]
+            ctx.lc.setdefault((f[1], f[3]), []).append(rec)
+        elif stream == "lct":
+            ctx.lct[(f[1], f[3], int(f[2]))] = dict(x.split("=", 1) for x in impl.split(";") if x)
+        elif stream == "lcclear":
+            ctx.lcclear.add((f[1], f[3], int(f[2])))
+        elif stream == "tl":
+            r.count(case, True)
+            ctx.tl.setdefault(f[1], {})[f[2]] = impl
         else:
             r.broken.append(f"unknown harness line {line[:80]!r}")
     if model is not None and mi != len(model):
         r.broken.append("model driver output does not line up with the harness cases")
+
+
+def beneath(path, root):
+    return path == root or path.startswith(root.rstrip("/") + "/")
+
+
+def norm_res(res):
+    """harness result -> the vocabulary of the Lean driver's `hist` answers"""
+    return "e" if res.startswith("e:") else res
+
+
+def check_templates_listing(r, ctx):
+    """Environment::templates() of the ld stream's `get` environments = exactly what get_template
+    returned, name by name (the store is keyed by the name), and all of it beneath the base"""
+    base_canon = os.path.realpath(ctx.bases["abs"]) if "abs" in ctx.bases else None
+    for variant, listed in ctx.tl.items():
+        want = {n: res for (v, n), res in ctx.got.items() if v == variant}
+        for n, res in listed.items():
+            case = f"tl {variant} {n}"
+            for mk in (res[2:].split("+") if res.startswith("f:") else [res]):
+                kp = mk.split(":", 1)
+                if len(kp) != 2 or kp[0] != "B" or not beneath(untilde(kp[1]), base_canon):
+                    if unpct(n) == "inc" and mk.startswith("f:?"):
+                        continue        # the marker-free helper template of the `nested` form, beneath the base
+                    r.oracle_failure(case, f"Environment::templates lists content that is not a file beneath the base: {mk!r}", "templates:outside-base")
+            if n in want and want[n] != res:
+                r.model_disagreement(case, res, want[n])
+        missing = [n for n in want if n not in listed]
+        extra = [n for n in listed if n not in want and unpct(n) != "inc"]
+        if missing or extra:
+            r.model_disagreement(f"tl {variant}", f"listed-but-never-returned {extra[:3]}", f"returned-but-not-listed {missing[:3]}")
+        r.hist["templates()"][variant] += len(listed)
+    ctx.tl, ctx.got = {}, {}
+
+
+def check_lifecycle(r, ctx):
+    """the loader over time: oracle on every answer, and the Lean model of loader + store
+    (`Env.run` over the history of disk answers) against every form"""
+    if not ctx.lc:
+        return
+    jobs, lines = [], []
+
+    def hist_line(base, recs, key_name, key_v, with_clear=True):
+        steps, seen = [], set()
+        for rec in recs:
+            ck = (rec["scn"], rec["sp"], rec["phase"])
+            if ck in ctx.lcclear and ck not in seen and with_clear:
+                steps.append("CLEAR")
+            seen.add(ck)
+            if key_v == "v":
+                hp, disk = rec["v"].split("|", 1)
+                n = rec["name"]
+            else:
+                n, hp, disk = rec["vj"].split("|", 2)
+            steps.append(f"{n},{hp},{disk}")
+        return "hist " + base + " " + " ".join(steps)
+
+    for (scn, sp), recs in ctx.lc.items():
+        base = ctx.lcbase[(scn, sp)]
+        phases = sorted({rec["phase"] for rec in recs})
+        for ph in phases:
+            upto = [rec for rec in recs if rec["phase"] <= ph]
+            jobs.append(("main", scn, sp, ph, upto)); lines.append(hist_line(base, upto, "name", "v"))
+            only = [rec for rec in recs if rec["phase"] == ph]
+            jobs.append(("arr", scn, sp, ph, only)); lines.append(hist_line(base, only, "name", "v"))
+        jobs.append(("joincb", scn, sp, phases[-1], recs)); lines.append(hist_line(base, recs, "name", "vj"))
+    model = r.driver("drive_c17", "\n".join(lines) + "\n")
+    if model is None or len(model) != len(lines) or any(m == "bad-case" for m in model):
+        r.broken.append("model driver did not answer the lifecycle histories")
+        model = None
+
+    # oracle (independent of the model)
+    for (scn, sp), recs in ctx.lc.items():
+        roots = set()
+        for rec in recs:
+            for k in ("bc", "bl"):
+                if rec[k] != "-":
+                    roots.add(untilde(rec[k]))
+            r.hist["lifecycle"][f"{scn}/{sp}"] += 1
+            for form in LC_FORMS:
+                res = rec.get(form, "missing-field")
+                cls = res.split(":")[0]
+                r.hist["lifecycle:" + form]["found" if cls == "f" else ("panic" if cls == "panic" else res)] += 1
+                if cls == "panic":
+                    r.oracle_failure(rec["case"], f"{form}: panic {res!r}", f"lifecycle:{form}:panic")
+                elif cls == "f":
+                    for mk in res[2:].split("+"):
+                        kp = mk.split(":", 1)
+                        mpath = untilde(kp[1]) if len(kp) == 2 else None
+                        if not roots:
+                            r.oracle_failure(rec["case"], f"{form}: the configured base {unpct(ctx.lcbase[(scn, sp)])!r} has not existed since the loader was built, yet the loader returned {mk!r} (cwd {untilde(rec['cwd'])!r})",
+                                             f"lifecycle:{form}:content-without-base")
+                        elif mpath is None or not any(beneath(mpath, root) for root in roots):
+                            r.oracle_failure(rec["case"], f"{form}: loader returned {mk!r}, not beneath the configured base {sorted(roots)} (cwd {untilde(rec['cwd'])!r})",
+                                             f"lifecycle:{form}:outside-base")
+                elif cls not in ("nf", "e"):
+                    broken(r, "unexpected-result", f"unexpected harness result {res!r} on {rec['case']}")
+        # Environment::templates after each phase
+        for ph in sorted({rec["phase"] for rec in recs}):
+            for n, res in ctx.lct.get((scn, sp, ph), {}).items():
+                for mk in (res[2:].split("+") if res.startswith("f:") else [res]):
+                    kp = mk.split(":", 1)
+                    if len(kp) != 2 or not any(beneath(untilde(kp[1]), root) for root in roots):
+                        r.oracle_failure(f"lct {scn} {ph} {sp} {n}", f"Environment::templates lists {mk!r}, not beneath the configured base {sorted(roots)}",
+                                         "lifecycle:templates:outside-base")
+
+    # correspondence with the Lean model of loader + store
+    if model is not None:
+        for (kind, scn, sp, ph, recs), m in zip(jobs, model):
+            answers, _, store = m.partition(" | ")
+            answers = answers.split(" ") if answers else []
+            if len(answers) != len(recs):
+                r.broken.append(f"lifecycle history {kind} {scn} {sp}: model answered {len(answers)} of {len(recs)} requests")
+                continue
+            if kind == "main":
+                forms = [x for x in LC_FORMS if x not in ("joincb", "arr")]
+            else:
+                forms = [kind]
+            for rec, want in zip(recs, answers):
+                if kind == "main" and rec["phase"] != ph:
+                    continue       # earlier phases were compared with their own prefix
+                for form in forms:
+                    got = norm_res(rec.get(form, "missing-field"))
+                    if got != want:
+                        r.model_disagreement(rec["case"] + " [" + form + "]", f"loader answered {got!r}", f"model (configured base, disk at load time, store) answers {want!r}")
+            if kind == "main":
+                want_store = dict(x.split("=", 1) for x in store.split(";") if x)
+                got_store = {n: res[2:] for n, res in ctx.lct.get((scn, sp, ph), {}).items() if unpct(n) != "inc"}
+                if want_store != got_store:
+                    diff = sorted(set(want_store.items()) ^ set(got_store.items()))[:3]
+                    r.model_disagreement(f"lct {scn} {ph} {sp}", f"Environment::templates differs from the model's store: {diff}", "")
+    r.sample({"case": next(iter(ctx.lc.values()))[0]["case"], "loader": {k: v for k, v in next(iter(ctx.lc.values()))[0].items() if k not in ("case",)}})
+    ctx.lc, ctx.lct, ctx.lcclear = {}, {}, set()
 
 
 def run(r):
@@ -246,7 +416,7 @@ def run(r):
               "scratch base, 8 disk-free bases) in rotation; a name is non-trivial when it contains '/', '.' or '\\\\'")
     r.assumptions = ["Unix path semantics (separator '/', no prefixes); symbolic links inside the base are out of scope per the statement",
                      "names longer than 5 segments behave as the model predicts (proved for the model for every name and base)"]
-    r.regen_tables()
+    r.regen_tables(needed=["C17_SAFE_JOIN_RULES", "C17_PATH_LOADER_SHAPE", "C17_LOADER_ENTRY_SITES"])
     r.lean_prove("MJ.Props.C17", "MJ/Audit/C17.lean", extra_targets=["drive_c17"])
     exe = r.cargo_build("c17")
     if exe is None:
@@ -263,12 +433,14 @@ def run(r):
         if lines and lines[-1] == "":
             lines.pop()
         del out
-        minp = "\n".join(l for l in lines if not l.startswith("#") and not l.startswith("ld ")) + "\n"
+        minp = "\n".join(l for l in lines if l.startswith(("sj ", "push ", "comps "))) + "\n"
         model = r.driver("drive_c17", minp)
         del minp
         if model is not None and any(m == "bad-case" for m in model):
             r.broken.append("model driver could not parse some case lines")
         check_lines(r, ctx, lines, model)
+        check_templates_listing(r, ctx)
+        check_lifecycle(r, ctx)
         if n > 1:
             r.log(f"chunk {k + 1}/{n}: evaluations {r.evaluations}")
     r.exhaustive = (r.tier == "thorough")
